@@ -43,7 +43,7 @@ const c27Rule = "byte streams for one router session: a generated BMP conversati
 const (
 	c27AllocBase     = 1 << 20
 	c27AllocPerFrame = 192 << 10
-	c27AllocPerByte  = 4 << 10
+	c27AllocPerByte  = 8 << 10
 	c27Watchdog      = 20 * time.Second
 )
 
@@ -168,13 +168,13 @@ func c27Parked(dump string) bool {
 }
 
 // c27Journal records the case before execution (process-killing failures).
-func c27Journal(streams [][]byte, chunk int) {
+func c27Journal(streams [][]byte, chunk int, cfg RouterConfig) {
 	wd := os.Getenv("VERIF_WORK")
 	if wd == "" {
 		return
 	}
 	var sb strings.Builder
-	fmt.Fprintf(&sb, "# C27 case about to execute; replay: VERIF_C27_JOURNAL=<this file> harness.test -test.run TestVerifC27ReplayJournal\nchunk %d\n", chunk)
+	fmt.Fprintf(&sb, "# C27 case about to execute; replay: VERIF_C27_JOURNAL=<this file> harness.test -test.run TestVerifC27ReplayJournal\nchunk %d\ncfg %d %v %v\n", chunk, len(cfg.IgnorePeerASNs), cfg.IgnorePrePolicy, cfg.IgnorePostPolicy)
 	for _, s := range streams {
 		fmt.Fprintf(&sb, "stream %s\n", hex.EncodeToString(s))
 	}
@@ -196,11 +196,26 @@ func c27Judge(streams [][]byte, chunk int, cfg RouterConfig) (violation string, 
 		case o.timeout:
 			return "", true
 		}
+		c27NoteRatio(o.alloc, c27Budget(s), len(s))
 		if b := c27Budget(s); o.alloc > b {
 			return fmt.Sprintf("serve allocated %d bytes for a %d-byte stream (stream %d), budget %d", o.alloc, len(s), i, b), false
 		}
 	}
 	return "", false
+}
+
+// largest observed alloc/budget ratio (reported as an evidence note so that the
+// head-room of the budget constants stays visible)
+var c27Ratio struct {
+	permille uint64
+	alloc    uint64
+	n        int
+}
+
+func c27NoteRatio(alloc, budget uint64, n int) {
+	if pm := alloc * 1000 / budget; pm > c27Ratio.permille {
+		c27Ratio.permille, c27Ratio.alloc, c27Ratio.n = pm, alloc, n
+	}
 }
 
 func c27Inconclusive(msg string) {
@@ -219,8 +234,12 @@ type c27GenPeer struct {
 	addPath bool
 }
 
-var c27Lengths = []uint32{0, 1, 5, 6, 7, 10, 47, 48, 49, 4095, 4096, 4097, 65535, 65536, 1 << 20, 1 << 24, 1 << 28, 0x7fffffff, 0x80000000, 0xffffffff}
-var c27Counts = []uint32{0, 1, 2, 3, 255, 65535, 65536, 1 << 20, 1 << 24, 1 << 27, 0x7fffffff, 0xffffffff}
+// Huge values stop at 64 MiB / 4M entries: far above the budget, yet cheap to
+// allocate when a bound is missing (multi-GiB allocations take minutes on a
+// loaded machine and would turn a violation into a deadline). The 4 GiB
+// extremes live at the end of the regression list.
+var c27Lengths = []uint32{0, 1, 5, 6, 7, 10, 47, 48, 49, 4095, 4096, 4097, 65535, 65536, 1 << 20, 1 << 24, 1 << 26}
+var c27Counts = []uint32{0, 1, 2, 3, 255, 65535, 65536, 1 << 20, 1 << 21, 1 << 22}
 
 func c27GenAddr(t *rapid.T, v6 bool, label string) [16]byte {
 	var a [16]byte
@@ -619,6 +638,9 @@ func c27Classify(stream []byte) (frames, decoded int) {
 
 func TestVerifC27Serve(t *testing.T) {
 	rec := kit.NewRecorder(t, "C27", c27Rule)
+	defer func() {
+		rec.Note("largest alloc/budget ratio %d permille (%d bytes allocated for a %d-byte stream)", c27Ratio.permille, c27Ratio.alloc, c27Ratio.n)
+	}()
 	rapid.Check(t, func(t *rapid.T) {
 		c := rec.Case()
 		defer c.Done()
@@ -648,7 +670,7 @@ func TestVerifC27Serve(t *testing.T) {
 		for _, s := range streams {
 			c.Logf("stream %x", s)
 		}
-		c27Journal(streams, chunk)
+		c27Journal(streams, chunk, cfg)
 		v, inc := c27Judge(streams, chunk, cfg)
 		if inc {
 			c27Inconclusive("watchdog expired without a conclusive wedge")
@@ -693,12 +715,11 @@ func c27Regressions() []c27Regression {
 	upd := c27Update(nil, attrs, []byte{24, 10, 1, 1})
 	hdr := func(l uint32, typ uint8) []byte { return c27cat([]byte{3}, c27u32(l), []byte{typ}) }
 	return []c27Regression{
-		{"hdr_len_4GiB", [][]byte{hdr(0xffffffff, 4)}},
-		{"hdr_len_256MiB_after_init", [][]byte{c27cat(init, hdr(1<<28, 0), []byte{1, 2, 3})}},
+		{"hdr_len_64MiB_after_init", [][]byte{c27cat(init, hdr(1<<26, 0), []byte{1, 2, 3})}},
 		{"hdr_len_0", [][]byte{hdr(0, 4)}},
 		{"hdr_len_5", [][]byte{c27cat(init, hdr(5, 4))}},
-		{"stats_count_2^27", [][]byte{c27cat(init, up, c27Stats(p.pph, 1<<27))}},
-		{"stats_count_2^24_truncated_tlv", [][]byte{c27Stats(p.pph, 1<<24, []byte{0, 1})}},
+		{"stats_count_2^22", [][]byte{c27cat(init, up, c27Stats(p.pph, 1<<22))}},
+		{"stats_count_2^21_truncated_tlv", [][]byte{c27Stats(p.pph, 1<<21, []byte{0, 1})}},
 		{"term_reason_empty", [][]byte{c27cat(init, c27Termination(c27TLV(1, nil)))}},
 		{"peerup_recv_open_as_differs", [][]byte{c27cat(init, c27PeerUp(p.pph, p.local, 179, 40000, c27GoodOpen(65000, 1, false, 3), c27GoodOpen(65003, 2, false, 3), nil))}},
 		{"rm_notification", [][]byte{c27cat(init, up, c27RouteMon(p.pph, upd), c27RouteMon(p.pph, c27Notification(6, 2, nil)))}},
@@ -709,6 +730,10 @@ func c27Regressions() []c27Regression {
 		{"duplicate_peer_up_then_down", [][]byte{c27cat(init, up, c27RouteMon(p.pph, upd), up, c27PeerDown(p.pph, 4, nil), c27PeerDown(p.pph, 4, nil))}},
 		{"reconnect_after_eof_with_routes", [][]byte{c27cat(init, up, c27RouteMon(p.pph, upd)), c27cat(init, up, c27RouteMon(p.pph, upd), c27Termination(c27TLV(1, c27u16(0))))}},
 		{"term_then_more", [][]byte{c27cat(init, up, c27RouteMon(p.pph, upd), c27Termination(c27TLV(1, c27u16(0))), c27RouteMon(p.pph, upd))}},
+		// extremes last (only reached when everything above is within budget)
+		{"hdr_len_2GiB", [][]byte{hdr(0x80000000, 0)}},
+		{"hdr_len_4GiB", [][]byte{hdr(0xffffffff, 4)}},
+		{"stats_count_2^32-1", [][]byte{c27cat(init, up, c27Stats(p.pph, 0xffffffff))}},
 	}
 }
 
@@ -722,7 +747,7 @@ func TestVerifC27Regressions(t *testing.T) {
 			for _, s := range rg.streams {
 				c.Logf("stream %x", s)
 			}
-			c27Journal(rg.streams, chunk)
+			c27Journal(rg.streams, chunk, RouterConfig{Passive: true})
 			v, inc := c27Judge(rg.streams, chunk, RouterConfig{Passive: true})
 			if inc {
 				c27Inconclusive("watchdog expired in regression " + rg.name)
@@ -735,7 +760,11 @@ func TestVerifC27Regressions(t *testing.T) {
 			c.NonTrivialIf(nt)
 			c.Done()
 			if v != "" {
-				t.Errorf("C27 violated by regression input %q (chunk %d): %s", rg.name, chunk, c27FirstLines(v, 12))
+				if os.Getenv("VERIF_C27_ALL") != "" && !strings.Contains(rg.name, "GiB") && !strings.Contains(rg.name, "2^32") {
+					t.Errorf("C27 violated by regression input %q (chunk %d): %s", rg.name, chunk, c27FirstLines(v, 14))
+					continue
+				}
+				t.Fatalf("C27 violated by regression input %q (chunk %d): %s", rg.name, chunk, v)
 			}
 		}
 	}
@@ -753,11 +782,19 @@ func TestVerifC27ReplayJournal(t *testing.T) {
 		t.Fatal(err)
 	}
 	chunk := 0
+	cfg := RouterConfig{Passive: true}
 	var streams [][]byte
 	for _, ln := range bytes.Split(b, []byte("\n")) {
 		f := strings.Fields(string(ln))
 		if len(f) == 2 && f[0] == "chunk" {
 			fmt.Sscanf(f[1], "%d", &chunk)
+		}
+		if len(f) == 4 && f[0] == "cfg" {
+			if f[1] != "0" {
+				cfg.IgnorePeerASNs = []uint32{65001}
+			}
+			cfg.IgnorePrePolicy = f[2] == "true"
+			cfg.IgnorePostPolicy = f[3] == "true"
 		}
 		if len(f) >= 1 && f[0] == "stream" {
 			s := []byte{}
@@ -770,7 +807,7 @@ func TestVerifC27ReplayJournal(t *testing.T) {
 			streams = append(streams, s)
 		}
 	}
-	v, inc := c27Judge(streams, chunk, RouterConfig{Passive: true})
+	v, inc := c27Judge(streams, chunk, cfg)
 	if inc {
 		t.Skip("inconclusive: watchdog")
 	}
